@@ -120,11 +120,11 @@ pub fn heavy_writers_cfg() -> GenCfg {
 /// more than 64 distinct resources in one builder
 pub fn many_resources_cfg() -> GenCfg {
     GenCfg {
-        max_ops: 40,
+        max_ops: 60,
         universe_max: 95,
         extended_universe: true,
         rt_skew: 6,
-        max_reads: 3,
+        max_reads: 5,
         max_writes: 3,
         p_dep: 1,
         p_barrier: 0,
@@ -495,7 +495,7 @@ pub fn subs_for(id: &str) -> Vec<Sub> {
                 lp(
                     "C01",
                     "c01-layout-many-resources",
-                    "many-resources class: up to 95 distinct resources (8 types x 12 dynamic ids spread over the u64 range) in one builder of up to 40 systems",
+                    "many-resources class: up to 95 distinct resources (8 types x 12 dynamic ids spread over the u64 range) in one builder of up to 60 systems",
                     many_resources_cfg(),
                     900,
                     p_layout::o_c01,
@@ -796,7 +796,7 @@ pub fn subs_for(id: &str) -> Vec<Sub> {
                 lp(
                     "C10",
                     "c10-layout-many-resources",
-                    "many-resources class: up to 95 distinct resources in one builder of up to 40 systems",
+                    "many-resources class: up to 95 distinct resources in one builder of up to 60 systems",
                     many_resources_cfg(),
                     900,
                     p_layout::o_c10,
@@ -1126,10 +1126,12 @@ pub fn sched_subs_for(id: &str) -> Vec<Sub> {
         ],
         "C05" => vec![
             sched_sub(
-                sp(
+                p_sched::SchedProp {
+                    thread_choices: vec![1, 2, 3, 4, 6, 8, 16, 0],
+                    ..sp(
                     "C05",
                     "c05-differential",
-                    "plans whose systems apply order-sensitive updates (each written cell := h(old, system, digest of everything read, own state)) x schedule x pool size x 1..3 repeated dispatches; oracle: world contents and every system's state after dispatch/dispatch_par under the generated schedule == after dispatch_seq of the same dispatcher on an identical world; batches may hold thread-local systems (which access nothing but keep their own state); non-trivial = >= 2 groups side by side and a resource written by >= 2 systems",
+                    "plans whose systems apply order-sensitive updates (each written cell := h(old, system, digest of everything read, own state)) x schedule x pool size (1..16 threads, or no pool given: the default pool, free run) x 1..3 repeated dispatches; oracle: world contents and every system's state after dispatch/dispatch_par under the generated schedule == after dispatch_seq of the same dispatcher on an identical world; batches may hold thread-local systems (which access nothing but keep their own state); non-trivial = >= 2 groups side by side and a resource written by >= 2 systems",
                     GenCfg {
                         tl_in_batch: true,
                         tl_in_batch_access: false,
@@ -1139,7 +1141,8 @@ pub fn sched_subs_for(id: &str) -> Vec<Sub> {
                     vec![Dispatch, Par],
                     vec![0, 1, 2],
                     p_sched::nt_differential,
-                ),
+                )
+                },
                 8_000,
                 300_000,
             ),
@@ -1224,7 +1227,7 @@ pub fn sched_subs_for(id: &str) -> Vec<Sub> {
                     ..sp(
                         "C05",
                         "c05-differential-many-resources",
-                        "many-resources class (up to 95 distinct resources in one builder of up to 40 systems), free run with jitter and maximal overlap, compared with the sequential result",
+                        "many-resources class (up to 95 distinct resources in one builder of up to 60 systems), free run with jitter and maximal overlap, compared with the sequential result",
                         many_resources_cfg(),
                         vec![Want::Differential],
                         vec![Dispatch, Par],
